@@ -215,6 +215,8 @@ def check(run):
                 run.fail('rerun-after-cleanup', 'execute after cleanup re-ran %d tasks' % sum(len(p['ran']) for p in phases3), rpl)
             run.count('lifecycles')
         kwargs_and_late_types_family(run, scratch)
+        kwargs_and_late_types_family(run, scratch, first_flags=('--debug',))
+        kwargs_and_late_types_family(run, scratch, first_flags=('--aggressive-unload',))
         if drv is not None and run.corr_disagreements == 0:
             run.obligation('correspondence: %d loads with compound tasks gave the task list of the model' % run.corr_programs, True)
     finally:
@@ -286,6 +288,13 @@ v5 = CompoundTask(build_mixed, 3)
 v6 = CompoundTask(build_none, 3)
 v7 = CompoundTask(build_bytes, 2)
 v8 = CompoundTask(build_map, 5)
+# ordinary tasks that consume compounds: stored under an identifier that must be the same before and after the compounds collapse
+@TaskGenerator
+def consume(x, tag=0):
+    _note('consume')
+    return [x, tag]
+u1 = consume(c1)
+u2 = consume(c3, tag=c2)
 '''
 
 KWPROBE = '''import json, sys
@@ -294,7 +303,7 @@ from jug.task import value
 store, space = jug.init('jugfile.py', 'jugfile.jugdata')
 names = sorted(t.name.split('.')[-1] for t in jug.task.alltasks)
 vals = {}
-for k in ('c1', 'c2', 'c3', 'c4', 'c5', 'r', 'v1', 'v2', 'v3', 'v4', 'v5', 'v6', 'v7', 'v8'):
+for k in ('c1', 'c2', 'c3', 'c4', 'c5', 'r', 'v1', 'v2', 'v3', 'v4', 'v5', 'v6', 'v7', 'v8', 'u1', 'u2'):
     try:
         vals[k] = repr(value(space[k]))
     except Exception as e:
@@ -303,21 +312,21 @@ print('PROBE ' + json.dumps({'names': names, 'values': vals, 'stored': len(list(
 '''
 
 
-def kwargs_and_late_types_family(run, scratch):
+def kwargs_and_late_types_family(run, scratch, first_flags=()):
     """compound tasks called with keyword arguments (the value depends on them; two calls that differ only there are different compounds), and a
     compound whose value is of a type the jugfile defines further down; real processes: execute, status, reload, execute again"""
     import subprocess
     import sys
-    d = os.path.join(scratch, 'kwcompound')
+    d = os.path.join(scratch, 'kwcompound' + ''.join(first_flags))
     os.makedirs(d)
     open(os.path.join(d, 'jugfile.py'), 'w').write(KWJUGFILE)
     open(os.path.join(d, 'probe.py'), 'w').write(KWPROBE)
-    rp = {'kind': 'kw-compound'}
-    run.case(('kw-compound',), nontrivial=True)
+    rp = {'kind': 'kw-compound', 'first_execute_flags': list(first_flags)}
+    run.case(('kw-compound',) + tuple(first_flags), nontrivial=True)
     run.count('kw_compound_histories')
     want = {'c1': '3', 'c2': '6', 'c3': '11', 'c4': '11', 'c5': '3', 'r': "Rec(a=4, b='4')",
             'v1': "'report-3.txt'", 'v2': 'array([0, 2, 4])', 'v3': '{1, 3}', 'v4': 'range(0, 3)', 'v5': "(3, 'label', [4, 2.5], {'k': 5})", 'v6': 'None', 'v7': "b'abab'",
-            'v8': '[0, 2, 4, 6, 8]'}
+            'v8': '[0, 2, 4, 6, 8]', 'u1': '[3, 0]', 'u2': '[11, 6]'}
 
     def probe():
         env = dict(os.environ, PYTHONPATH=core.REPO + os.pathsep + os.environ.get('PYTHONPATH', ''))
@@ -331,7 +340,7 @@ def kwargs_and_late_types_family(run, scratch):
         except IOError:
             return 0
     common = ['--will-cite', '--nr-wait-cycles', '2', '--wait-cycle-time', '0']
-    ex = L.jug_cli(['execute', 'jugfile.py'] + common, d)
+    ex = L.jug_cli(['execute', 'jugfile.py'] + common + list(first_flags), d)
     if ex.returncode != 0:
         run.fail('kw-compound-execute', 'execute of the jugfile with keyword-argument compounds exits %d: %s' % (ex.returncode, ex.stdout[-400:]), rp)
         return
@@ -351,7 +360,7 @@ def kwargs_and_late_types_family(run, scratch):
                  % (p2['names'], p2['values'], p2['stored'], p1['names'], p1['values'], p1['stored']), rp)
     L.jug_cli(['execute', 'jugfile.py'] + common, d)
     if ncalls() != calls1:
-        run.fail('rerun-executes', 'a second execute after collapse called %d more task functions' % (ncalls() - calls1), rp)
+        run.fail('rerun-executes', 'a second execute after collapse (the first one ran with %s) called %d more task functions: consumers of a compound are stored under another identifier once it has collapsed' % (' '.join(first_flags) or 'no extra flags', ncalls() - calls1), rp)
     core.rm_rf(d)
 
 
